@@ -3,10 +3,31 @@ package value
 import (
 	"context"
 	"encoding/json"
+	goErrors "errors"
 	"fmt"
+	"math"
+	"strconv"
 
 	"github.com/smarthome-go/homescript/v3/homescript/errors"
 )
+
+// Floats which hold an integral value must keep their ".0" so that they are parsed back as floats
+// (same convention as the VM's runtime).
+type jsonFloat float64
+
+func (f jsonFloat) MarshalJSON() ([]byte, error) {
+	const floatSize = 64
+
+	n := float64(f)
+	if math.IsInf(n, 0) || math.IsNaN(n) {
+		return nil, goErrors.New("unsupported float64")
+	}
+	prec := -1
+	if math.Trunc(n) == n {
+		prec = 1 // Force ".0" for integers.
+	}
+	return strconv.AppendFloat(nil, n, 'f', prec, floatSize), nil
+}
 
 func marshalValue(self Value, span errors.Span, isInner bool, executor Executor) (interface{}, bool, *Interrupt) {
 	switch self := self.(type) {
@@ -15,7 +36,7 @@ func marshalValue(self Value, span errors.Span, isInner bool, executor Executor)
 	case ValueInt:
 		return self.Inner, false, nil
 	case ValueFloat:
-		return self.Inner, false, nil
+		return jsonFloat(self.Inner), false, nil
 	case ValueBool:
 		return self.Inner, false, nil
 	case ValueAnyObject:
